@@ -74,96 +74,178 @@ func eofTest(c ssa.Value, e ssa.Value) (bool, bool) {
 
 // errorReturnedWhenNonNil decides whether error value e is returned on every
 // path on which it is non-nil, except paths on which it equals io.EOF.
-// Returns ok and a diagnostic.
+// Path enumeration from the definition of e: at a nil test only the non-nil
+// side carries the obligation, at an io.EOF test only the non-EOF side; every
+// other path must reach a return that returns e itself (phis are resolved by
+// the predecessor taken) or a panic. Re-entering a block already on the path
+// (a loop iteration) without having returned e drops the error.
 func errorReturnedWhenNonNil(e ssa.Value) (bool, string) {
-	refs := e.Referrers()
-	if refs == nil {
-		return false, "value has no referrers"
+	def, ok := e.(ssa.Instruction)
+	if !ok {
+		return false, "error value is not defined by an instruction"
 	}
-	// direct return of the value (return f()) is fine
-	tested := false
-	for _, ref := range *refs {
-		switch r := ref.(type) {
-		case *ssa.Return:
-			return true, "returned directly"
-		case *ssa.BinOp:
-			if is, nonNilOnTrue := nilTest(r, e); is {
-				for _, rr := range *r.Referrers() {
-					ifi, ok := rr.(*ssa.If)
-					if !ok {
-						continue
-					}
-					tested = true
-					start := ifi.Block().Succs[0]
-					if !nonNilOnTrue {
-						start = ifi.Block().Succs[1]
-					}
-					if ok, why := errRegionReturns(e, start); !ok {
-						return false, why
+	if e.Referrers() == nil || len(*e.Referrers()) == 0 {
+		return false, "error value is never used"
+	}
+	start := def.Block()
+	paths := 0
+	var path []*ssa.BasicBlock
+	onPath := map[*ssa.BasicBlock]bool{}
+	// resolves v along the current path: does it denote e?
+	var denotes func(v ssa.Value, upto int) bool
+	denotes = func(v ssa.Value, upto int) bool {
+		if v == e {
+			return true
+		}
+		switch x := v.(type) {
+		case *ssa.Phi:
+			// find the phi's block on the path and the predecessor before it
+			for i := upto; i >= 1; i-- {
+				if path[i] == x.Block() {
+					pred := path[i-1]
+					for k, pb := range x.Block().Preds {
+						if pb == pred {
+							return denotes(x.Edges[k], i-1)
+						}
 					}
 				}
 			}
-		case *ssa.Phi, *ssa.Store:
-			// the value is merged with others / stored into a variable: follow one level for phi
-			if ph, ok := ref.(*ssa.Phi); ok {
-				ok2, why := errorReturnedWhenNonNil(ph)
-				if !ok2 {
-					return false, "via phi: " + why
-				}
-				tested = true
+		case *ssa.ChangeInterface:
+			return denotes(x.X, upto)
+		case *ssa.Call:
+			// fmt.Errorf("...%w", e): wrapping returns the error
+			if callee := x.Call.StaticCallee(); callee != nil && callee.String() == "fmt.Errorf" {
+				return wrapsValue(x, e)
 			}
 		}
+		return false
 	}
-	if !tested {
-		return false, "error value is never tested against nil nor returned"
-	}
-	return true, "every non-nil path returns it (io.EOF side exempt)"
-}
-
-// errRegionReturns walks forward from the block entered when e != nil.
-func errRegionReturns(e ssa.Value, start *ssa.BasicBlock) (bool, string) {
-	seen := map[*ssa.BasicBlock]bool{}
-	var walk func(b *ssa.BasicBlock) (bool, string)
-	walk = func(b *ssa.BasicBlock) (bool, string) {
-		if seen[b] {
-			return true, ""
+	var fail string
+	var walk func(b *ssa.BasicBlock, fromIdx int)
+	walk = func(b *ssa.BasicBlock, fromIdx int) {
+		if fail != "" || paths > 4000 {
+			return
 		}
-		seen[b] = true
-		if b != start && !start.Dominates(b) {
-			return false, fmt.Sprintf("path from the non-nil branch rejoins normal flow at block %d without returning the error", b.Index)
+		if onPath[b] {
+			fail = fmt.Sprintf("a path on which the error is non-nil re-enters block %d (next loop iteration) without returning it", b.Index)
+			return
 		}
+		onPath[b] = true
+		path = append(path, b)
+		defer func() { delete(onPath, b); path = path[:len(path)-1] }()
 		last := b.Instrs[len(b.Instrs)-1]
 		switch x := last.(type) {
 		case *ssa.Return:
+			paths++
 			for _, r := range x.Results {
-				if r == e {
-					return true, ""
+				if denotes(r, len(path)-1) {
+					return
 				}
 			}
-			return false, fmt.Sprintf("return in block %d does not return the error", b.Index)
+			fail = fmt.Sprintf("return in block %d does not return the error", b.Index)
+			return
 		case *ssa.Panic:
-			return true, ""
+			paths++
+			return
 		case *ssa.If:
-			if is, eofOnTrue := eofTest(x.Cond, e); is {
-				// only the non-EOF side carries the obligation
-				nonEOF := b.Succs[1]
-				if !eofOnTrue {
-					nonEOF = b.Succs[0]
+			cv := x.Cond
+			if is, nonNilOnTrue := nilTestD(cv, e, denotes, len(path)-1); is {
+				if nonNilOnTrue {
+					walk(b.Succs[0], 0)
+				} else {
+					walk(b.Succs[1], 0)
 				}
-				return walk(nonEOF)
+				return
+			}
+			if is, eofOnTrue := eofTestD(cv, e, denotes, len(path)-1); is {
+				if eofOnTrue {
+					walk(b.Succs[1], 0)
+				} else {
+					walk(b.Succs[0], 0)
+				}
+				return
 			}
 		}
 		if len(b.Succs) == 0 {
-			return false, fmt.Sprintf("block %d ends without returning the error", b.Index)
+			paths++
+			fail = fmt.Sprintf("block %d ends without returning the error", b.Index)
+			return
 		}
 		for _, s := range b.Succs {
-			if ok, why := walk(s); !ok {
-				return false, why
+			walk(s, 0)
+		}
+	}
+	walk(start, 0)
+	if fail != "" {
+		return false, fail
+	}
+	if paths > 4000 {
+		return false, "too many paths to decide"
+	}
+	return true, fmt.Sprintf("returned on all %d paths on which it may be non-nil (io.EOF side exempt)", paths)
+}
+
+func nilTestD(c ssa.Value, e ssa.Value, denotes func(ssa.Value, int) bool, upto int) (bool, bool) {
+	bo, ok := c.(*ssa.BinOp)
+	if !ok || (bo.Op != token.NEQ && bo.Op != token.EQL) {
+		return false, false
+	}
+	if (denotes(bo.X, upto) && isNilConst(bo.Y)) || (denotes(bo.Y, upto) && isNilConst(bo.X)) {
+		return true, bo.Op == token.NEQ
+	}
+	return false, false
+}
+
+func eofTestD(c ssa.Value, e ssa.Value, denotes func(ssa.Value, int) bool, upto int) (bool, bool) {
+	bo, ok := c.(*ssa.BinOp)
+	if !ok || (bo.Op != token.NEQ && bo.Op != token.EQL) {
+		return false, false
+	}
+	if (denotes(bo.X, upto) && isGlobalLoad(bo.Y, "io.EOF")) || (denotes(bo.Y, upto) && isGlobalLoad(bo.X, "io.EOF")) {
+		return true, bo.Op == token.EQL
+	}
+	return false, false
+}
+
+// wrapsValue: fmt.Errorf call whose format wraps (%w) the given value.
+func wrapsValue(c *ssa.Call, e ssa.Value) bool {
+	if len(c.Call.Args) < 2 {
+		return false
+	}
+	format, ok := constString(c.Call.Args[0])
+	if !ok || !strings.Contains(format, "%w") {
+		return false
+	}
+	// variadic slice: find stores of e (boxed) into the backing array
+	sl, ok := c.Call.Args[1].(*ssa.Slice)
+	if !ok {
+		return false
+	}
+	arr, ok := sl.X.(*ssa.Alloc)
+	if !ok || arr.Referrers() == nil {
+		return false
+	}
+	for _, ref := range *arr.Referrers() {
+		ia, ok := ref.(*ssa.IndexAddr)
+		if !ok || ia.Referrers() == nil {
+			continue
+		}
+		for _, r2 := range *ia.Referrers() {
+			if st, ok := r2.(*ssa.Store); ok {
+				v := st.Val
+				if ci, ok := v.(*ssa.ChangeInterface); ok {
+					v = ci.X
+				}
+				if mi, ok := v.(*ssa.MakeInterface); ok {
+					v = mi.X
+				}
+				if v == e {
+					return true
+				}
 			}
 		}
-		return true, ""
 	}
-	return walk(start)
+	return false
 }
 
 // ruleErrorsReturned applies the rule to every error-producing call in fns that
